@@ -178,13 +178,7 @@ func (c *Ctx) G2(rule, key string, fn *ssa.Function, target ssa.Instruction, wha
 		return false
 	}
 	cut := ssau.NewCut()
-	n := 0
-	for _, i := range ssau.Ifs(fn) {
-		if m, arm := sel(i); m {
-			n++
-			cut.AddEdge(i.Block(), ssau.Arm(i, arm))
-		}
-	}
+	n := c.matchGuards(fn, sel, cut, 0)
 	if n == 0 {
 		c.R.Check(rule, key, false, c.posOf(target), fmt.Sprintf("%s: no branch on %s found", fname(fn), what))
 		return false
@@ -209,23 +203,47 @@ func (c *Ctx) GuardSuccess(rule, key string, fn *ssa.Function, what string, sel 
 	if opt.Base != nil {
 		cut = opt.Base.Clone()
 	}
-	n := 0
 	var at ssa.Instruction
+	n := c.matchGuards(fn, sel, cut, 0)
 	for _, i := range ssau.Ifs(fn) {
-		if m, arm := sel(i); m {
-			n++
+		if m, _ := safeSel(sel, i); m {
 			at = i
-			cut.AddEdge(i.Block(), ssau.Arm(i, arm))
+		}
+	}
+	ec := c.classifier(fn, opt)
+	// a boolean verdict returned as the comparison itself: `return a == b` is guarded by a == b
+	retGuarded := map[*ssa.Return]bool{}
+	if ec.Idx >= 0 {
+		for _, ret := range ssau.Returns(fn) {
+			if ec.Idx >= len(ret.Results) {
+				continue
+			}
+			v := ssau.ResolveSpill(ret.Results[ec.Idx])
+			if _, isConst := v.(*ssa.Const); isConst {
+				continue
+			}
+			if bt, ok := v.Type().Underlying().(*types.Basic); !ok || bt.Kind() != types.Bool {
+				continue
+			}
+			if m, arm := safeSel(sel, &ssa.If{Cond: v}); m && arm == opt.BoolSuccess {
+				retGuarded[ret] = true
+				n++
+				if at == nil {
+					at = ret
+				}
+			}
 		}
 	}
 	if n == 0 {
 		c.R.Check(rule, key, false, c.pos(fn.Pos()), fmt.Sprintf("%s: no branch on %s found", fname(fn), what))
 		return false
 	}
-	ec := c.classifier(fn, opt)
 	r := ssau.ReachFromEntry(fn, cut)
 	succ := ec.SuccessExitsIn(r, cut)
 	for _, s := range succ {
+		if retGuarded[s] {
+			continue
+		}
 		if opt.IgnoreExit != nil && opt.IgnoreExit(s) {
 			continue
 		}
@@ -385,4 +403,110 @@ func firstCall(fn *ssa.Function, pred func(*ssa.CallCommon) bool) ssa.Instructio
 
 func short(s string) string {
 	return strings.ReplaceAll(s, core.Mod+"/", "")
+}
+
+// safeSel applies a branch selector, tolerating selectors that look at the instruction's block when given a
+// synthetic If (used for returned conditions).
+func safeSel(sel IfArm, i *ssa.If) (m bool, arm bool) {
+	defer func() {
+		if recover() != nil {
+			m, arm = false, false
+		}
+	}()
+	return sel(i)
+}
+
+// matchGuards adds to cut the required-arm edge of every branch of fn that (a) is matched by sel directly, or
+// (b) tests the verdict (error / bool) of a call to a small helper of the repository whose own success exits are
+// all guarded by sel - the guard was extracted into the helper. Returns the number of branches found.
+func (c *Ctx) matchGuards(fn *ssa.Function, sel IfArm, cut *ssau.Cut, depth int) int {
+	n, _ := c.matchGuardsA(fn, sel, cut, depth)
+	return n
+}
+
+// matchGuardsA is matchGuards that also returns the branches of fn whose required arm was cut.
+func (c *Ctx) matchGuardsA(fn *ssa.Function, sel IfArm, cut *ssau.Cut, depth int) (int, []*ssa.If) {
+	n := 0
+	var anchors []*ssa.If
+	for _, i := range ssau.Ifs(fn) {
+		if m, arm := safeSel(sel, i); m {
+			n++
+			anchors = append(anchors, i)
+			cut.AddEdge(i.Block(), ssau.Arm(i, arm))
+		}
+	}
+	if depth >= 2 {
+		return n, anchors
+	}
+	for _, b := range fn.Blocks {
+		for _, in := range b.Instrs {
+			cl, ok := in.(*ssa.Call)
+			if !ok {
+				continue
+			}
+			h := cl.Call.StaticCallee()
+			if h == nil || h == fn || h.Pkg == nil || len(h.Blocks) == 0 || len(h.Blocks) > 40 || !strings.HasPrefix(h.Pkg.Pkg.Path(), core.Mod) {
+				continue
+			}
+			idx := ssau.VerdictIndex(h.Signature)
+			if idx < 0 {
+				continue
+			}
+			// does the helper let a success exit through without the guard? (its parameters stand for the arguments)
+			ssau.WithParamSubst(cl, func() {
+				hc := ssau.NewCut()
+				if c.matchGuards(h, sel, hc, depth+1) == 0 {
+					// the helper may return the guarding comparison itself
+					hc = nil
+				}
+				for _, boolSucc := range []bool{true, false} {
+					ec := &ssau.ExitClassifier{Fn: h, Idx: idx, BoolSuccess: boolSucc}
+					if !ec.IsBoolVerdict() && !boolSucc {
+						continue
+					}
+					guarded := false
+					if hc != nil {
+						r := ssau.ReachFromEntry(h, hc)
+						guarded = len(ec.SuccessExitsIn(r, hc)) == 0
+					}
+					if !guarded && ec.IsBoolVerdict() {
+						// every return is a constant !boolSucc or a condition matched by sel with that polarity
+						all, any := true, false
+						for _, ret := range ssau.Returns(h) {
+							v := ssau.ResolveSpill(ret.Results[idx])
+							if k, isC := v.(*ssa.Const); isC {
+								if k.Value != nil && k.Value.String() == fmt.Sprint(boolSucc) {
+									all = false
+								}
+								continue
+							}
+							if m, arm := safeSel(sel, &ssa.If{Cond: v}); m && arm == boolSucc {
+								any = true
+							} else {
+								all = false
+							}
+						}
+						guarded = all && any
+					}
+					if !guarded {
+						continue
+					}
+					// the helper's success (nil / boolSucc) implies the guard: the pass edges of its verdict in fn count
+					for _, v := range ssau.ResultValues(cl, idx) {
+						edges, tested := ssau.PassEdges(fn, v, boolSucc)
+						if tested {
+							for _, e := range edges {
+								cut.AddEdge(e[0], e[1])
+								if iff, ok := e[0].Instrs[len(e[0].Instrs)-1].(*ssa.If); ok {
+									anchors = append(anchors, iff)
+								}
+							}
+							n++
+						}
+					}
+				}
+			})
+		}
+	}
+	return n, anchors
 }
